@@ -105,20 +105,20 @@ Proof.
 Qed.
 
 (* ---- per game: which codec and which suffixes (LayeredFilesystem::new) ---- *)
-Definition dot_cmp : str := [46; 99; 109; 112].
-Definition dot_cms : str := [46; 99; 109; 115].
-Definition dot_lz : str := [46; 108; 122].
+Definition sfx_cmp : str := [46; 99; 109; 112].
+Definition sfx_cms : str := [46; 99; 109; 115].
+Definition sfx_lz : str := [46; 108; 122].
 
 Theorem real_codec_of_game : forall ls l g S, fs_new ls l g = FOk S ->
   match g with
   | FE9 | FE10 =>
     c_comp (conf S) = LayeredFS.LZ10 /\
-    (forall p, is_compressed (c_comp (conf S)) p = orb (ends_with dot_cms p) (ends_with dot_cmp p)) /\
+    (forall p, is_compressed (c_comp (conf S)) p = orb (ends_with sfx_cms p) (ends_with sfx_cmp p)) /\
     (forall mc b, real_compress mc (c_comp (conf S)) b = Ok (compress10 b)) /\
     (forall md c, real_decompress md (c_comp (conf S)) c = lz10_decompress md c)
   | FE13 | FE14 | FE15 =>
     c_comp (conf S) = LayeredFS.LZ13 /\
-    (forall p, is_compressed (c_comp (conf S)) p = ends_with dot_lz p) /\
+    (forall p, is_compressed (c_comp (conf S)) p = ends_with sfx_lz p) /\
     (forall mc b, real_compress mc (c_comp (conf S)) b = compress13 mc b) /\
     (forall md c, real_decompress md (c_comp (conf S)) c = lz13_decompress md c)
   | FE11 | FE12 => False
@@ -140,9 +140,9 @@ Theorem real_read_after_write_by_game mc md : forall ls l g S p b loc S',
   fs_read (real_decompress md) S' p loc = FOk b /\
   exists s pp c, fs_addr S p loc = FOk (s, (pp, false)) /\ l_get (last (layers S') []) pp = Some (File c) /\
     match g with
-    | FE9 | FE10 => if orb (ends_with dot_cms p) (ends_with dot_cmp p)
+    | FE9 | FE10 => if orb (ends_with sfx_cms p) (ends_with sfx_cmp p)
                     then valid_stream LayeredFS.LZ10 b c /\ lz10_decompress md c = Ok b else c = b
-    | _ => if ends_with dot_lz p then valid_stream LayeredFS.LZ13 b c /\ lz13_decompress md c = Ok b else c = b
+    | _ => if ends_with sfx_lz p then valid_stream LayeredFS.LZ13 b c /\ lz13_decompress md c = Ok b else c = b
     end.
 Proof.
   intros ls l g S p b loc S' Hn H Hw Hl. split; [eapply real_read_after_write; eassumption|].
@@ -158,7 +158,7 @@ Proof.
     - injection En as ->. reflexivity. }
   destruct g; try contradiction; destruct HG as (Hc & Hs & _ & Hd); rewrite Hs, Hc in V; rewrite ?Hc in Hd;
     try rewrite <- (Hd md c); try exact V;
-    (destruct (ends_with dot_lz p) || destruct (orb _ _)); try exact V; rewrite Hc; exact V.
+    (destruct (ends_with sfx_lz p) || destruct (orb _ _)); try exact V; rewrite Hc; exact V.
 Qed.
 
 (* ---- non-vacuity: FE10 writes "a.cmp" as an LZ10 stream, FE14 writes "a.lz" as a wrapped LZ11 stream ---- *)
